@@ -155,8 +155,27 @@ def ite_bv(c, a, b, w):
     return z3.If(c, bvval(a, w) if isinstance(a, int) else a, bvval(b, w) if isinstance(b, int) else b)
 
 
+BYTE_DOMAIN = {}     # z3 byte-variable name -> frozenset of admissible values (registered by SymStr.fresh from the alphabet)
+_alpha_cache = {}
+
+
+def byte_domain(t):
+    """admissible values of a byte term if it is a registered input variable, else None"""
+    if isinstance(t, int): return None
+    if t.num_args() == 0 and t.decl().kind() == z3.Z3_OP_UNINTERPRETED:
+        return BYTE_DOMAIN.get(t.decl().name())
+    return None
+
+
 def bv_eq(a, b, w):
     if isinstance(a, int) and isinstance(b, int): return a == b
+    if w == 8:
+        if isinstance(b, int):
+            d = byte_domain(a)
+            if d is not None and b not in d: return False
+        elif isinstance(a, int):
+            d = byte_domain(b)
+            if d is not None and a not in d: return False
     if w > 8:
         la, ha = bounds(a); lb, hb = bounds(b)
         if ha < lb or hb < la: return False
@@ -429,12 +448,27 @@ class SymStr:
             for i, b in enumerate(bs):
                 if i >= minlen: cons.append(z3.Or(z3.UGT(ln, bvval(i, LW)), b == 0))
             a = Atom(ln, tuple(bs), minlen)
+        dom = None
+        if alphabet is not None:
+            if callable(alphabet):
+                key = id(alphabet)
+                if key not in _alpha_cache:
+                    vals = frozenset(c for c in range(256) if z3.is_true(z3.simplify(alphabet(bvval(c, 8)))))
+                    _alpha_cache[key] = (alphabet, vals)
+                dom = _alpha_cache[key][1]
+            else:
+                dom = frozenset(alphabet)
+        elif ascii_only:
+            dom = frozenset(range(128))
         for i, b in enumerate(a.bs):
             inr = True if isinstance(ln, int) else z3.UGT(ln, bvval(i, LW))
             if ascii_only: cons.append(z3.ULT(b, 0x80))
             if alphabet is not None:
                 ok = z3.Or([b == c for c in alphabet] if not callable(alphabet) else [alphabet(b)])
                 cons.append(ok if inr is True else z3.Or(z3.Not(inr), ok))
+            if dom is not None:
+                # positions beyond the length hold 0 by the string invariant
+                BYTE_DOMAIN[b.decl().name()] = dom if isinstance(ln, int) else (dom | frozenset([0]))
         return SymStr((a,))
 
     # ---- basic observers
